@@ -1148,3 +1148,98 @@ Section MuxImport.
     rewrite filter_all; [apply Permutation_refl|]. intros x _. destruct (is_topb x); reflexivity.
   Qed.
 End MuxImport.
+
+(* ---------------- a message with a multiplexer, as a whole ---------------- *)
+Definition mux_result (es : list enum_def) (env : ienv) (m : message) (mx : signal) (mid gs : Z) (S' : list signal) : list signal :=
+  let X := index_from 0 S' in
+  map (timg es env m mx) (filter plainp X) ++ [mx_img mx mid gs] ++ map (kimg es env m mx mid) (filter childp X).
+
+Lemma img_common : forall es m mx s,
+  ds_order (img es m mx s) = m_order m /\ ds_receivers (img es m mx s) = recs_out m.
+Proof.
+  intros es m mx s. unfold img. destruct (is_muxb s); [split; reflexivity|]. destruct (is_topb s); [|split; reflexivity].
+  destruct (dsig_e_fields es (m_order m) (recs_out m) s) as [H1 [H2 _]]. split; assumption.
+Qed.
+
+Lemma import_message_mux : forall es env names nodes st done m mx,
+  mmessage es names m -> In mx (m_signals m) -> is_muxb mx = true ->
+  (forall s, In s (m_signals m) -> is_muxb s = false ->
+     lookup key_eqb (u32 (m_canid m), clear (s_name s)) (ie_sig_enums env) = None /\
+     desc_of key_eqb (u32 (m_canid m), clear (s_name s)) (ie_sig_desc env) = s_desc s) ->
+  desc_of key_eqb (u32 (m_canid m), clear (s_name mx)) (ie_sig_desc env) = s_desc mx ->
+  ie_ext_muxes env = [] ->
+  desc_of Z.eqb (u32 (m_canid m)) (ie_msg_desc env) = m_desc m ->
+  (forall r, In r names -> In (clear r) (map n_name nodes)) ->
+  (forall r, In r names -> clear r <> dummy_node) ->
+  ~ In (m_canid m) (map m_canid done) ->
+  ~ In (clear (m_sender m), clear (m_name m)) (map (fun x => (m_sender x, m_name x)) done) ->
+  exists st' S' mid gs,
+    import_message env (st, done) nodes (dmsg_m es m)
+    = Ok (st', done ++ [mkmessage (m_canid m) (clear (m_name m)) (m_size m) (m_order m) 0 0 0 0
+                                  (clear (m_sender m)) (recs_in m) (m_desc m) [] (mux_result es env m mx mid gs S')]) /\
+    Permutation (m_signals m) S' /\ In (mid, mx) (index_from 0 S') /\ 1 <= gs <= s_gsize mx /\
+    is_enums st' = is_enums st /\ is_enum_refs st' = is_enum_refs st.
+Proof.
+  intros es env names nodes st done m mx Hmm Hmx Hmxm Henv Henvx Hext Hmd Hnodes Hnd Hcan Hpair.
+  pose proof Hmm as [Ha [Hc [Hdl [Hsd [Hst [Hid [Hsz [Hms [Hlay [Hsn [Hrc [Hrn Hre]]]]]]]]]]]].
+  (* the sorted signal list is the image of a permutation *)
+  pose proof (D_img es m mx names Hmm Hmx Hmxm) as HD.
+  pose proof (S0_perm es env m mx names Hmm Hmx Hmxm Henv) as HP0.
+  set (D := flat_map (tdsigs es (m_signals m) (m_order m) (recs_out m)) (filter is_topb (m_signals m))) in *.
+  assert (Hsorted : exists S', sort_by (fun a b => get_start_bit a <? get_start_bit b) D = map (img es m mx) S' /\ Permutation (m_signals m) S').
+  { assert (Hp : Permutation (sort_by (fun a b => get_start_bit a <? get_start_bit b) D) (map (img es m mx) (S0 m mx)))
+      by (rewrite <- HD; apply Permutation_sym, sort_by_perm).
+    apply Permutation_map_inv in Hp. destruct Hp as [S' [E1 E2]]. exists S'. split; [exact E1|].
+    eapply Permutation_trans; eauto. }
+  destruct Hsorted as [S' [Hsort HpS]].
+  assert (HmxS : In mx S') by (eapply Permutation_in; eauto).
+  destruct (in_index_from S' 0 mx HmxS) as [mid Hmid].
+  destruct (ims_mux es env (length done) m mx names Hmm Hmx Hmxm Henv Henvx Hext mid st S' (clear (m_name m)) (clear (m_sender m)) D HpS Hmid Hsort)
+    as [st' [Hsig [He1 [He2 Hgs]]]].
+  exists st', S', mid, (gsize_of es env m mx (is_enums st) (index_from 0 S')).
+  split; [|split; [exact HpS|split; [exact Hmid|split; [exact Hgs|split; assumption]]]].
+  unfold import_message. cbv zeta. unfold dmsg_m. cbn [dm_signals dm_id dm_size dm_tx dm_name]. fold D.
+  unfold desc_of in Hmd. rewrite Hmd. rewrite Hsort.
+  destruct S' as [|s0 sr] eqn:ES; [destruct HmxS|]. rewrite <- ES in *.
+  assert (Hne : m_signals m <> []) by (intros E; rewrite E in Hmx; destruct Hmx).
+  assert (Hord : match map (img es m mx) S' with [] => LittleEndian | s :: _ => ds_order s end = m_order m).
+  { rewrite ES. cbn [map]. apply (img_common es m mx s0). }
+  rewrite Hord.
+  assert (Hfo : forallb (fun s => bo_eqb (ds_order s) (m_order m)) (map (img es m mx) S') = true).
+  { apply forallb_forall. intros ds Hin. apply in_map_iff in Hin. destruct Hin as [s [<- _]].
+    rewrite (proj1 (img_common es m mx s)). destruct (m_order m); reflexivity. }
+  rewrite Hfo. cbn [negb].
+  assert (Hrin0 : recs_in m = map clear (sort_by str_ltb (m_receivers m))).
+  { unfold recs_in. destruct (m_signals m); [contradiction|reflexivity]. }
+  assert (Hrecs : filter (fun r => negb (String.eqb r dummy_node)) (dedup_str [] (flat_map ds_receivers (map (img es m mx) S'))) = recs_in m).
+  { rewrite ES. cbn [map]. rewrite (dedup_copies (recs_out m)).
+    - rewrite Hrin0. unfold recs_out. destruct (m_receivers m) as [|r0 rr] eqn:Er; [reflexivity|].
+      apply filter_all. intros x Hx. apply in_map_iff in Hx. destruct Hx as [y [Hy Hin]]. subst x.
+      rewrite In_sort_str in Hin.
+      destruct (String.eqb (clear y) dummy_node) eqn:E; [|reflexivity].
+      apply String.eqb_eq in E. exfalso. apply (Hnd y); [apply Hrc; assumption|assumption].
+    - unfold recs_out. destruct (m_receivers m) as [|r0 rr] eqn:Er; [constructor; [intros []|constructor]|].
+      eapply Permutation_NoDup; [|exact Hrn]. apply Permutation_map. apply sort_by_perm.
+    - intros x Hx. destruct Hx as [Hx|Hx]; [subst; apply (img_common es m mx s0)|].
+      apply in_map_iff in Hx. destruct Hx as [y [<- _]]. apply (img_common es m mx y). }
+  rewrite Hrecs.
+  assert (Hrin : forallb (fun r => mem_str r (map n_name nodes)) (recs_in m) = true).
+  { apply forallb_forall. intros x Hx. rewrite Hrin0 in Hx.
+    apply in_map_iff in Hx. destruct Hx as [y [Hy Hin]]. subst x. rewrite In_sort_str in Hin.
+    unfold mem_str. apply existsb_exists. exists (clear y). split; [apply Hnodes, Hrc; assumption|apply String.eqb_refl]. }
+  rewrite Hrin. cbn [negb].
+  assert (Htx : mem_str (clear (m_sender m)) (map n_name nodes) = true).
+  { unfold mem_str. apply existsb_exists. exists (clear (m_sender m)). split; [apply Hnodes; assumption|apply String.eqb_refl]. }
+  rewrite Htx. cbn [negb].
+  assert (Hname : mem_str (clear (m_name m))
+                    (map m_name (filter (fun x => String.eqb (m_sender x) (clear (m_sender m))) done)) = false).
+  { apply not_in_mem_str. intros Hin. apply in_map_iff in Hin. destruct Hin as [x [Hx Hin]].
+    apply filter_In in Hin. destruct Hin as [Hin Hs]. apply String.eqb_eq in Hs.
+    apply Hpair. apply in_map_iff. exists x. split; [rewrite Hs, Hx; reflexivity|assumption]. }
+  rewrite Hname.
+  rewrite (u32_id (m_size m)) by lia. replace (m_size m >? 8) with false by lia.
+  rewrite (u32_id (m_canid m)) by lia. rewrite (not_in_mem_z _ _ Hcan).
+  rewrite (u32_id (m_canid m)) in Hsig by lia. rewrite (u32_id (m_size m)) in Hsig by lia.
+  match goal with |- bind ?x ?k = _ => replace x with (@Ok (istate * list signal) (st', mux_result es env m mx mid (gsize_of es env m mx (is_enums st) (index_from 0 S')) S')) end.
+  cbn [bind]. reflexivity.
+Qed.
